@@ -1,6 +1,6 @@
 (* dispatch for the Client I/O model: run a list of public calls against a script *)
 From Coq Require Import ZArith List Bool.
-From PM Require Import Lib.Py Model.World Model.Client Extract.Codec.
+From PM Require Import Lib.Py Model.World Model.Client Model.Pooled Extract.Codec.
 Import ListNotations.
 Open Scope Z_scope.
 Definition zadd := Z.add. Definition zmul := Z.mul.
@@ -21,6 +21,20 @@ Definition dispatch (fid : Z) (args : list dyn) : exc dyn :=
                                  DBytes (w_buf w);
                                  DBytes (match w_sock w with Some s => conn_get (w_conns w) s | None => [] end)])
           | Raise e => Raise e end
+      | _, _ => Raise TypeError end
+  | 2, [DList cfgl; DList [DInt pmax; DInt pidle; DInt hp]; DList opsl; DList scl; DList csl; DList repl; DList clk] =>
+      match cfg_of cfgl, ops_of opsl with
+      | Some c, Some ops =>
+          let pc := {| pc_max := pmax; pc_idle := pidle; pc_h_pool := exn_of_tag hp |} in
+          let clock := flat_map (fun d => match d with DInt z => [z] | _ => [] end) clk in
+          match pooled_ops (list (list Z)) scripted_peer c pc ops (init_pool clock)
+                           (init_world (bytes_list repl) (map outcome_of scl) (map choice_of csl)) with
+          | (Ok rs, p, w) =>
+              Ok (DTuple [DList (map (fun x => match x with (r, u, f) => DTuple [res_dyn r; DInt u; DInt f] end) rs);
+                          DList (map ev_dyn (rev (w_trace w)));
+                          DInt (Z.of_nat (length (w_script w))); DInt (Z.of_nat (length (w_choices w)));
+                          DInt (p_created p)])
+          | (Raise e, _, _) => Raise e end
       | _, _ => Raise TypeError end
   | _, _ => Raise TypeError
   end.
